@@ -202,6 +202,14 @@ def pack_rules(ctx: Ctx) -> None:
     op = p.func("simfile:openpack")
     gens = [n for n in body_walk(op.node) if isinstance(n, ast.GeneratorExp)]
     okg = len(gens) == 1 and len(gens[0].generators) == 1 and not gens[0].generators[0].ifs and matches("$sp.simfile_dirs()", gens[0].generators[0].iter)
+    if not gens:
+        lps_ = [l for l in for_loops(op) if matches("$sp.simfile_dirs()", l.iter)]
+        if len(lps_) == 1:
+            ys_ = [n for st_ in lps_[0].body for n in walk_no_nested(st_) if isinstance(n, ast.Yield)]
+            skips_ = [n for st_ in lps_[0].body for n in walk_no_nested(st_) if isinstance(n, (ast.Continue, ast.Break, ast.Return, ast.If))]
+            okg = len(ys_) == 1 and not skips_
+        else:
+            raise AnalysisError("openpack: neither a generator expression nor a loop over SimfilePack.simfile_dirs()")
     ctx.expect("R-TABLE", op, "openpack walks SimfilePack.simfile_dirs() without filtering", okg, "", "", node=op.node)
 
 
